@@ -24,6 +24,7 @@ func init() {
 }
 
 func runC25(c *core.Ctx) {
+	c25Reregister(c)
 	// C25.a
 	groups := 0
 	for _, name := range []string{"(*CDCStreamer).Reset", "(*CDCStreamer).CommitHook"} {
@@ -64,6 +65,33 @@ func runC25(c *core.Ctx) {
 			}))
 			c.Result(okIdx, "C25.a", "INIT", name+":pending-group-carries-index", c.P.Pos(st.Pos()),
 				"the new pending group is labelled with the log entry's index", "a pending group is installed without the current log entry's index: the changes of a second commit within one log entry are labelled 0 and later discarded as already delivered", nil)
+			// the new group's event list is its own memory: the previous group has been handed to the
+			// consumer, which must not see events appended afterwards
+			fresh := true
+			for _, r := range *al.Referrers() {
+				if fa, ok := r.(*ssa.FieldAddr); ok {
+					if _, fl, _, ok := an.FieldOf(fa); ok && fl == "Events" {
+						for _, rr := range *fa.Referrers() {
+							if s2, ok := rr.(*ssa.Store); ok && s2.Addr == ssa.Value(fa) {
+								switch v := s2.Val.(type) {
+								case *ssa.MakeSlice:
+								case *ssa.Const:
+								case *ssa.Slice:
+									// make([]T, k) with constant k is a slice of a new array
+									if _, isNew := v.X.(*ssa.Alloc); !isNew {
+										fresh = false
+									}
+								default:
+									fresh = false
+								}
+							}
+						}
+					}
+				}
+			}
+			c.Result(fresh, "C25.a", "INIT", name+":pending-group-own-events", c.P.Pos(st.Pos()),
+				"the new pending group starts with an event list of its own (made fresh or nil)",
+				"a pending group is installed with an event list derived from existing memory (e.g. the previous group's slice re-sliced to length 0): the group already handed to the consumer shares its backing array, and the events of the next commit overwrite the ones being delivered", nil)
 		})
 	}
 	c.Count("pending-group installations after construction", groups)
